@@ -351,9 +351,58 @@ pub fn mutate_tokens(c: &mut Choices, toks: &mut Vec<String>, max_mut: usize) ->
             continue;
         }
         let i = c.choose(toks.len().min(65535));
-        match c.choose(5) {
+        let kind = c.choose(8);
+        match kind {
             0 => {
                 toks.remove(i);
+            }
+            5 => {
+                // context-crossing: put a variable where a (possibly constant) value or a type stands:
+                // stays grammatical in non-const value positions, leaves the grammar in Const ones
+                let cands: Vec<usize> = (1..toks.len())
+                    .filter(|&k| matches!(toks[k - 1].as_str(), ":" | "=" | "[") && !is_punct(&toks[k]))
+                    .collect();
+                if cands.is_empty() {
+                    toks.remove(i);
+                } else {
+                    let k = cands[c.choose(cands.len().min(65535))];
+                    toks[k] = "$".to_string();
+                    toks.insert(k + 1, c.pick(&["v", "a", "on", "null"]).to_string());
+                }
+            }
+            6 | 7 => {
+                // structure-aware: delete (6) or duplicate (7) a balanced bracket group, e.g. the body of a
+                // definition or extension, an argument list, a list value
+                let openers: Vec<usize> = (0..toks.len()).filter(|&k| matches!(toks[k].as_str(), "{" | "(" | "[")).collect();
+                if openers.is_empty() {
+                    toks.remove(i);
+                } else {
+                    let k = openers[c.choose(openers.len().min(65535))];
+                    let mut depth = 0i32;
+                    let mut end = toks.len() - 1;
+                    for (j, t) in toks.iter().enumerate().skip(k) {
+                        match t.as_str() {
+                            "{" | "(" | "[" => depth += 1,
+                            "}" | ")" | "]" => {
+                                depth -= 1;
+                                if depth == 0 {
+                                    end = j;
+                                    break;
+                                }
+                            }
+                            _ => {}
+                        }
+                    }
+                    if kind == 6 {
+                        toks.drain(k..=end);
+                    } else {
+                        let group: Vec<String> = toks[k..=end].to_vec();
+                        let at = end + 1;
+                        for (n, t) in group.into_iter().enumerate() {
+                            toks.insert(at + n, t);
+                        }
+                    }
+                }
             }
             1 => {
                 let t = toks[i].clone();
@@ -371,6 +420,10 @@ pub fn mutate_tokens(c: &mut Choices, toks: &mut Vec<String>, max_mut: usize) ->
         }
     }
     n
+}
+
+fn is_punct(t: &str) -> bool {
+    matches!(t, "{" | "}" | "(" | ")" | "[" | "]" | ":" | "!" | "$" | "@" | "&" | "|" | "=" | "...")
 }
 
 #[cfg(test)]
